@@ -605,3 +605,4 @@ RENAME_FUNCS = [(F, n) for n in ('quantize_to_step', 'steps_per_quarter_to_steps
                                  'quantize_note_sequence_absolute', '_is_power_of_2')]
 
 EXPLANATION += (" Location-independent additions: PAIR/running-maximum (a field raised against a snapshot of itself taken before the loop), ESC/change-not-exempted-by-time (the rejection of a changed tempo/meter inside the loop does not depend on the event's time).")
+EXPLANATION += (' Round 6: ' + 'ESC/negative-on-step is a located deviation (wherever it stands) when the guard of a NegativeTimeError reads a raw time and no quantized step.')
